@@ -213,6 +213,14 @@ impl Runner {
                 let b = wire::unhex(hx).unwrap();
                 self.sut.chunk(&b)
             }
+            ["obs", hx] => match wire::unhex(hx) {
+                Some(b) => self.sut.obs(&b),
+                None => "bad-op".to_string(),
+            },
+            ["blast", kind, hx] => match wire::unhex(hx) {
+                Some(b) => self.sut.blast(kind, &b),
+                None => "bad-op".to_string(),
+            },
             ["eof"] => self.sut.eof(),
             ["fin"] => self.sut.fin(),
             _ => "bad-op".to_string(),
